@@ -149,6 +149,27 @@ def inputs(ctx):
         ins.append({"id": "g%d" % n, "k": "vttpos", "groups": [None], "cap": None, "lang": d})
         n += 1
 
+    # the zero corner and its neighbourhood: a left / top offset of exactly 0 (with no, zero or
+    # positive padding on that side) is still written; a width that padding eats up
+    zc = 0
+    for ox in ("0", "1/100", "10"):
+        for oy in ("0", "1/100", "20"):
+            for pad in (None, ["0", "0", "0", "0"], ["2", "0", "0", "3"], ["0", "3", "2", "0"]):
+                for ext in (None, ["50", "30"], ["5", "30"]):
+                    if ctx.quick and zc % 2:
+                        zc += 1
+                        continue
+                    zc += 1
+                    d = {"o": [[ox, "%"], [oy, "%"]]}
+                    if pad:
+                        d["p"] = [[v, "%"] for v in pad]
+                    if ext:
+                        d["e"] = [[ext[0], "%"], [ext[1], "%"]]
+                    for where in ("node", "cap", "lang"):
+                        ins.append({"id": "z%d" % n, "k": "vttpos", "groups": [d if where == "node" else None],
+                                    "cap": d if where == "cap" else None, "lang": d if where == "lang" else None})
+                        n += 1
+
     def rnd_layout():
         d = {}
         x, y = rng.randrange(0, 6000) / 100, rng.randrange(0, 6000) / 100
